@@ -336,6 +336,15 @@ def has_narrowing_cast(e):
         return (src is not None and (WIDTH[e[1]] < WIDTH[src] or (e[1] == "B" and src != "B"))) or has_narrowing_cast(e[2])
     return any(has_narrowing_cast(x) for x in e[1:] if isinstance(x, tuple))
 
+def has_minint_additive(e):
+    """the shape on which peepPositive/peepAdditiveOp loop: SIntPlus with the literal MinInt as an operand, or
+    SIntMinus with it as right operand (also one `SIntNegate` away: a + (-(MinInt)) is rewritten to a - MinInt)"""
+    def is_min(x):
+        return x == ("sint", MININT & M64) or (x[0] == "b1" and x[1] == "SIntNegate" and x[2] == ("sint", MININT & M64))
+    if e[0] == "b2" and ((e[1] == "SIntPlus" and (is_min(e[2]) or is_min(e[3]))) or (e[1] == "SIntMinus" and is_min(e[3]))):
+        return True
+    return any(has_minint_additive(x) for x in e[1:] if isinstance(x, tuple))
+
 def stmt_expr(s):
     return s[1] if s[0] in ("ret", "if", "sel") else ("bool", True)
 
@@ -408,15 +417,20 @@ def run_part(ctx, build):
     assert len(m) == len(lines), (len(m), len(lines))
     # requests on which the model does not reach a fixed point are run one by one with a short
     # time limit (the C loop is expected not to return)
-    normal_idx = [i for i in range(len(lines)) if m[i] != "DIVERGES"]
-    div_idx = [i for i in range(len(lines)) if m[i] == "DIVERGES"]
+    # ("DIVERGES": the rule still fires on the result; tag `fuel0`: a SUBTERM ran out of fuel although the
+    # result looks finished, e.g. `if (a - MinInt) ~= (a - MinInt)` -> nop in the model: the C code treats the
+    # operands first and never gets to the root)
+    def predicted_div(i):
+        return m[i] == "DIVERGES" or "fuel0" in tags[i].split()
+    normal_idx = [i for i in range(len(lines)) if not predicted_div(i)]
+    div_idx = [i for i in range(len(lines)) if predicted_div(i)]
     c = [None] * len(lines)
     got = common.run_impl_lines(exe, [lines[i] for i in normal_idx], timeout=300)
     for i, g in zip(normal_idx, got):
         c[i] = g
     # (in parallel, a few seconds each: the answer expected from the C side is "no answer")
     from vlib import aldor as _aldor
-    dsel = div_idx[:4]
+    dsel = div_idx[:4] if ctx.tier != "thorough" else div_idx[:40]
     for i, r in zip(dsel, _aldor.run_many([(common.run_impl_lines, (exe, [lines[i]]), {"timeout": 4}) for i in dsel])):
         c[i] = r[0] if not isinstance(r, Exception) else "FAULT(check-error %r)" % (r,)
     stats = {"lines": len(lines), "corpus": ncorpus, "exhaustive": len(ex), "mismatch": 0, "prop_checked": 0,
@@ -430,8 +444,13 @@ def run_part(ctx, build):
         toks = ln.split()
         req = " ".join(toks[2:])
         seen.add(co)
-        if mo == "DIVERGES":
-            if co.startswith("FAULT(TIMEOUT"):
+        if predicted_div(k):
+            shape = has_minint_additive(stmt_expr(parse_stmt(toks[2:])))
+            if co.startswith("FAULT(TIMEOUT") and not shape:
+                # a loop of the pass that is NOT the listed one (no `x + MinInt` / `x - MinInt` inside)
+                ctx.finding("peep|loop|" + ln, "peepAux does not return on `%s`, which does not contain the MinInt additive shape" % req,
+                            {"kind": "impl-hangs", "driver": "harness/optdrv.c", "line": ln, "impl": co, "model": mo})
+            elif co.startswith("FAULT(TIMEOUT"):
                 ctx.finding("peep|minint-additive-loop",
                             "peepAux never returns on `x + MinInt` / `x - MinInt` (peepPositive negates the most negative "
                             "SInt to itself, so a+m -> a-m -> a+m -> ...): the compiler hangs, e.g. `%s`" % req,
